@@ -806,6 +806,7 @@ def run(ctx):
     inplace_edit_history(ctx, res)
     hand_cases2(ctx, res)
     kwtie.kw_tie(ctx, res, ctx.model.run if ctx.model else None)
+    kwtie.kwrecord_tie(ctx, res, ctx.model.run if ctx.model else None)
     n = ctx.n(120, 2000)
     for i in range(n):
         seed = ctx.seed * 100000 + i
